@@ -713,6 +713,9 @@ pub struct Knobs {
     pub reversed_assign: bool,
     pub multi_decl: bool,
     pub custom_templates: bool,
+    /// array dimensions that read a variable in scope (`var n[3 + 0 * n]`), by preference the
+    /// very name the declaration shadows; off unless a check switches it on (no draw when off)
+    pub dim_exprs: bool,
     pub circomlib_names: bool,
     pub early_return: bool,
     /// rarely give a definition two parameters with one name (a CFG-stage report)
@@ -765,6 +768,7 @@ impl Knobs {
             reversed_assign: b(1, 4),
             multi_decl: b(1, 3),
             custom_templates: b(1, 8),
+            dim_exprs: false,
             circomlib_names: b(1, 4),
             early_return: b(1, 4),
             dup_params: b(1, 6),
@@ -1348,11 +1352,27 @@ impl<'a> Ctx<'a> {
                     let mut items = Vec::new();
                     let n = if self.k.multi_decl && self.rng.chance(1, 3) { 2 } else { 1 };
                     for _ in 0..n {
-                        let name = self.new_var_name();
+                        // with the knob on, sometimes re-declare an outer scalar as an array on purpose
+                        let mut forced: Option<String> = None;
+                        if self.k.dim_exprs && self.k.arrays && self.k.shadowing && self.scopes.len() > 1 && self.rng.chance(1, 5) {
+                            let outer: Vec<String> = self
+                                .all_vars()
+                                .into_iter()
+                                .filter(|v| v.dims == 0 && !self.declared_in_current_scope(&v.name) && !self.loop_vars.contains(&v.name))
+                                .map(|v| v.name)
+                                .collect();
+                            if !outer.is_empty() {
+                                forced = Some(outer[self.rng.usize(outer.len())].clone());
+                            }
+                        }
+                        let name = match &forced {
+                            Some(f) => f.clone(),
+                            None => self.new_var_name(),
+                        };
                         if items.iter().any(|it: &DeclItem| it.name == name) {
                             continue;
                         }
-                        let is_arr = self.k.arrays && self.rng.chance(1, 4);
+                        let is_arr = forced.is_some() || (self.k.arrays && self.rng.chance(1, 4));
                         if is_arr {
                             let size = 1 + self.rng.usize(3);
                             let init = if self.rng.below(1000) < self.k.array_init_permille as u64 {
@@ -1360,7 +1380,23 @@ impl<'a> Ctx<'a> {
                             } else {
                                 None
                             };
-                            items.push(DeclItem { name: name.clone(), dims: vec![Expr::Num(format!("{size}"))], init });
+                            // the dimension is evaluated in the scope the declaration is made in: a
+                            // read of the name being shadowed there means the outer variable
+                            let mut dim = Expr::Num(format!("{size}"));
+                            if self.k.dim_exprs && self.rng.chance(1, 2) {
+                                let scalars: Vec<String> = self.all_vars().into_iter().filter(|v| v.dims == 0).map(|v| v.name).collect();
+                                let own = scalars.iter().find(|v| **v == name).cloned();
+                                let pick = match own {
+                                    Some(v) if self.rng.chance(3, 4) => Some(v),
+                                    _ if !scalars.is_empty() => Some(scalars[self.rng.usize(scalars.len())].clone()),
+                                    _ => None,
+                                };
+                                if let Some(v) = pick {
+                                    let zero = Expr::Infix(Box::new(Expr::Num("0".into())), "*", Box::new(Expr::Var(v)));
+                                    dim = Expr::Infix(Box::new(dim), "+", Box::new(zero));
+                                }
+                            }
+                            items.push(DeclItem { name: name.clone(), dims: vec![dim], init });
                             self.declare_var(&name, 1, size);
                         } else {
                             let init = if self.rng.chance(19, 20) {
